@@ -52,7 +52,7 @@ theorem panic_absorbed (cfg : HCfg) (r : ReqIn) (s : St) (p : PanicV) :
   · exact Or.inr ⟨q, h⟩
 
 /-! ## non-vacuity -/
-def cfg0 : HCfg := ⟨true, true, true, [[109]], [], 1, .absent, .absent, .absent, .absent, .absent, 0⟩
+def cfg0 : HCfg := ⟨true, true, true, [[109]], [], 1, .absent, .absent, .absent, .absent, .absent, 0, []⟩
 def req0 : ReqIn := ⟨.call, [97], [110, 101, 119], true, [], .ok, [], false, none, none, []⟩
 example : ¬ Unanswered cfg0 req0 := by simp [Unanswered, req0]
 
